@@ -210,3 +210,9 @@ def run(ctx):
     # ---- R-C11.5 every tree draws its own numbers (versions, bulk-ingested tables) from the database generator (shared with C06)
     from . import C06
     C06.shared_counters(ctx, "R-C11.5")
+
+    # ---- cross-cutting disciplines (rules/discipline.py)
+    from .. import discipline as D
+    # every batch and every keyspace takes part in the seqno restore
+    D.loops_visit_all(ctx, "R-C11.6", only=("db::Database::recover", "recovery::recover_sealed_memtables"))
+
